@@ -169,58 +169,144 @@ def Store.closeness (s : Store) (weighted wf : Bool) : Outcome (List (Nat × Rat
     let nd ← Outcome.ofOption "closeness: get_node_by_index().unwrap()" (g.getNodeByIndex src)
     .ok (ainsert out nd.name (nodeCentrality sp n wf))) (.ok [])
 
-/-! ## eigenvector.rs (over `Float`) -/
+/-! ## eigenvector.rs (written once, generically over the scalar type; executed over `Float`) -/
+
+/-- The `f64` arithmetic eigenvector.rs uses, as a record of operations: the step, the stopping test and the loop
+    below are written ONCE over an arbitrary `Scalar α` and instantiated at `Float` (`floatScalar`, what the driver
+    executes against the implementation) and at `ℝ` (`realScalar` in Props/C18Model.lean, what the C18 theorems are
+    about). -/
+structure Scalar (α : Type) where
+  zero : α
+  one : α
+  add : α → α → α
+  sub : α → α → α
+  mul : α → α → α
+  div : α → α → α
+  sqrt : α → α
+  abs : α → α
+  /-- `a < b` -/
+  lt : α → α → Bool
+  /-- `a == 0.0` -/
+  isZero : α → Bool
+  /-- `n as f64` -/
+  ofNat : Nat → α
+  /-- the `f64` of a stored weight (`none` is NaN) -/
+  ofW : W → α
 
 def wFloat : W → Float
   | none => Float.ofInt 0 / Float.ofInt 0   -- NaN
   | some x => Float.ofInt x
 
-def fsum (l : List Float) : Float := l.foldl (· + ·) 0.0
+/-- IEEE double arithmetic: the instance the driver runs. -/
+def floatScalar : Scalar Float where
+  zero := 0.0
+  one := 1.0
+  add := (· + ·)
+  sub := (· - ·)
+  mul := (· * ·)
+  div := (· / ·)
+  sqrt := Float.sqrt
+  abs := Float.abs
+  lt := fun a b => a < b
+  isZero := fun a => a == 0.0
+  ofNat := Float.ofNat
+  ofW := wFloat
 
-structure EigResult where
+/-- `.sum()` of an `f64` iterator: left fold from zero -/
+def sumG {α} (S : Scalar α) (l : List α) : α := l.foldl S.add S.zero
+
+def fsum (l : List Float) : Float := sumG floatScalar l
+
+structure EigResultG (α : Type) where
   /-- `none` = PowerIterationFailedConvergence -/
-  value : Option (List (Nat × Float))
+  value : Option (List (Nat × α))
   iterations : Nat
   /-- smallest distance, over the iterations, between the L1 change and the threshold
       (a tiny margin means the float-rounding of the real code may stop at another iteration) -/
-  margin : Float
+  margin : α
+
+abbrev EigResult := EigResultG Float
+
+/-- the weight the iteration uses for a stored edge: `match !weighted || edge.weight.is_nan() { true => 1.0, false => edge.weight }` -/
+def eigWeightG {α} (S : Scalar α) (weighted : Bool) (e : Edge) : α :=
+  if !weighted || e.w.isNan then S.one else S.ofW e.w
+
+/-- body of the inner loop `for nbr in graph.get_successors_or_neighbors(n)`: `x[nbr] += xlast[n] * w`
+    (`kv = (n, xlast[n])`) -/
+def Store.eigInnerG {α} (S : Scalar α) (s : Store) (weighted : Bool) (kv : Nat × α)
+    (acc2 : Outcome (List (Nat × α))) (nbr : Node) : Outcome (List (Nat × α)) := do
+  let x ← acc2
+  let e ← (s.getEdge kv.1 nbr.name).unwrap "eigenvector: get_edge().unwrap()"
+  let w : α := eigWeightG S weighted e
+  match alookup x nbr.name with
+  | some old => .ok (ainsert x nbr.name (S.add old (S.mul kv.2 w)))
+  | none => .panic "eigenvector: x.get_mut().unwrap()"
+
+/-- body of the outer loop `for n in xlast.keys()` -/
+def Store.eigOuterG {α} (S : Scalar α) (s : Store) (weighted : Bool)
+    (acc : Outcome (List (Nat × α))) (kv : Nat × α) : Outcome (List (Nat × α)) := do
+  let x ← acc
+  let nbrs ← s.getSuccessorsOrNeighbors kv.1
+  nbrs.foldl (s.eigInnerG S weighted kv) (.ok x)
+
+/-- The two nested `for` loops: `x = xlast.clone()`, then `x[nbr] += xlast[n] * w` for every `n` and every successor /
+    neighbour `nbr` of `n`, i.e. `x = xlast + A^T xlast`. -/
+def Store.eigAccG {α} (S : Scalar α) (s : Store) (weighted : Bool) (xlast : List (Nat × α)) : Outcome (List (Nat × α)) :=
+  xlast.foldl (s.eigOuterG S weighted) (.ok xlast)
+
+/-- `norm = sqrt(sum v^2)`, replaced by 1 when it is 0; `v /= norm` -/
+def eigNormaliseG {α} (S : Scalar α) (x : List (Nat × α)) : List (Nat × α) :=
+  let norm := S.sqrt (sumG S (x.map fun kv => S.mul kv.2 kv.2))
+  let norm := if S.isZero norm then S.one else norm
+  x.map fun kv => (kv.1, S.div kv.2 norm)
 
 /-- One step `x -> normalise(x + A^T x)` over the model's store. -/
-def Store.eigStep (s : Store) (weighted : Bool) (xlast : List (Nat × Float)) : Outcome (List (Nat × Float)) := do
-  let x ← xlast.foldl (fun acc kv => do
-    let x ← acc
-    let nbrs ← s.getSuccessorsOrNeighbors kv.1
-    nbrs.foldl (fun acc2 nbr => do
-      let x ← acc2
-      let e ← (s.getEdge kv.1 nbr.name).unwrap "eigenvector: get_edge().unwrap()"
-      let w : Float := if !weighted || e.w.isNan then 1.0 else wFloat e.w
-      match alookup x nbr.name with
-      | some old => .ok (ainsert x nbr.name (old + kv.2 * w))
-      | none => .panic "eigenvector: x.get_mut().unwrap()") (.ok x)) (.ok xlast)
-  let norm := Float.sqrt (fsum (x.map fun kv => kv.2 * kv.2))
-  let norm := if norm == 0.0 then 1.0 else norm
-  .ok (x.map fun kv => (kv.1, kv.2 / norm))
+def Store.eigStepG {α} (S : Scalar α) (s : Store) (weighted : Bool) (xlast : List (Nat × α)) : Outcome (List (Nat × α)) := do
+  let x ← s.eigAccG S weighted xlast
+  .ok (eigNormaliseG S x)
 
-def eigLoop (s : Store) (weighted : Bool) (nnodes : Nat) (tol : Float) :
-    Nat → Nat → List (Nat × Float) → Float → Outcome EigResult
+/-- the L1 change `y = sum |x[k] - xlast[k]|` of the stopping test -/
+def eigDeltaG {α} (S : Scalar α) (xlast x : List (Nat × α)) : α :=
+  sumG S (x.map fun kv => S.abs (S.sub kv.2 ((alookup xlast kv.1).getD S.zero)))
+
+/-- the stopping test `y < nnodes as f64 * tolerance` -/
+def eigConvergedG {α} (S : Scalar α) (nnodes : Nat) (tol : α) (xlast x : List (Nat × α)) : Bool :=
+  S.lt (eigDeltaG S xlast x) (S.mul (S.ofNat nnodes) tol)
+
+def eigLoopG {α} (S : Scalar α) (s : Store) (weighted : Bool) (nnodes : Nat) (tol : α) :
+    Nat → Nat → List (Nat × α) → α → Outcome (EigResultG α)
   | 0, it, _, margin => .ok ⟨none, it, margin⟩
   | fuel + 1, it, xlast, margin =>
-    match s.eigStep weighted xlast with
+    match s.eigStepG S weighted xlast with
     | .ok x =>
-      let y := fsum (x.map fun kv => Float.abs (kv.2 - (alookup xlast kv.1).getD 0.0))
-      let thr := Float.ofNat nnodes * tol
-      let m := Float.abs (y - thr)
-      let margin := if m < margin then m else margin
-      if y < thr then .ok ⟨some x, it + 1, margin⟩
-      else eigLoop s weighted nnodes tol fuel (it + 1) x margin
+      let y := eigDeltaG S xlast x
+      let thr := S.mul (S.ofNat nnodes) tol
+      let m := S.abs (S.sub y thr)
+      let margin := if S.lt m margin then m else margin
+      if S.lt y thr then .ok ⟨some x, it + 1, margin⟩
+      else eigLoopG S s weighted nnodes tol fuel (it + 1) x margin
     | .err k => .err k
     | .panic site => .panic site
 
-/-- `eigenvector_centrality` -/
-def Store.eigenvector (s : Store) (weighted : Bool) (maxIter : Nat) (tol : Float) : Outcome EigResult := do
+/-- `eigenvector_centrality`; `margin0` is the initial value of the margin bookkeeping (not part of the Rust code) -/
+def Store.eigenvectorG {α} (S : Scalar α) (s : Store) (weighted : Bool) (maxIter : Nat) (tol margin0 : α) :
+    Outcome (EigResultG α) := do
   s.ensureNotMulti
   let n := s.getAllNodes.length
-  let x0 := s.getAllNodes.foldl (fun l nd => ainsert l nd.name (1.0 / Float.ofNat n)) []
-  eigLoop s weighted n tol maxIter 0 x0 (1.0 / 0.0)
+  let x0 := s.getAllNodes.foldl (fun l nd => ainsert l nd.name (S.div S.one (S.ofNat n))) []
+  eigLoopG S s weighted n tol maxIter 0 x0 margin0
+
+/-! ### the `Float` instances (what the driver runs) -/
+
+def Store.eigStep (s : Store) (weighted : Bool) (xlast : List (Nat × Float)) : Outcome (List (Nat × Float)) :=
+  s.eigStepG floatScalar weighted xlast
+
+def eigLoop (s : Store) (weighted : Bool) (nnodes : Nat) (tol : Float) :
+    Nat → Nat → List (Nat × Float) → Float → Outcome EigResult :=
+  eigLoopG floatScalar s weighted nnodes tol
+
+/-- `eigenvector_centrality` -/
+def Store.eigenvector (s : Store) (weighted : Bool) (maxIter : Nat) (tol : Float) : Outcome EigResult :=
+  s.eigenvectorG floatScalar weighted maxIter tol (1.0 / 0.0)
 
 end Graphrs
